@@ -3,6 +3,7 @@ import LitexModel.Bridge.Wb2Axl
 import LitexModel.Bridge.Simple
 import LitexModel.Bridge.Down
 import LitexModel.Bridge.Up
+import LitexModel.Bridge.Axi2Axl
 import LitexModel.DriverLib
 /-
   Numeric port encodings of the C09 bridge models for the line protocol (all numbers decimal).
@@ -17,6 +18,12 @@ import LitexModel.DriverLib
   `axlsram shift adrBits nb readOnly w0 w1 …` (initial words) : inputs = AXI-Lite master, outputs = AXI-Lite slave
   `axldown ratio nbTo abits` : inputs = AXI-Lite master (wide) ++ AXI-Lite slave (narrow), outputs = AXI-Lite slave (wide) ++ AXI-Lite master (narrow)
   `axlup ratio nbFrom` : inputs = AXI-Lite master (narrow) ++ AXI-Lite slave (wide), outputs = AXI-Lite slave (narrow) ++ AXI-Lite master (wide)
+  AXI master signals (18): aw.valid aw.addr aw.burst aw.len aw.size aw.id w.valid w.data w.strb w.last b.ready
+                           ar.valid ar.addr ar.burst ar.len ar.size ar.id r.ready
+  AXI slave signals  (11): aw.ready w.ready b.valid b.resp b.id ar.ready r.valid r.resp r.data r.id r.last
+  `axi2axl aw` : inputs = AXI master ++ AXI-Lite slave, outputs = AXI slave ++ AXI-Lite master
+  `axl2axi size burst prot wid rid` : inputs = AXI-Lite master ++ AXI slave,
+                                      outputs = AXI-Lite slave ++ AXI master ++ [aw.prot aw.cache ar.prot ar.cache]
   `wb2axl adrBits shift base` : inputs = Wishbone master ++ AXI-Lite slave, outputs = Wishbone slave ++ AXI-Lite master
 -/
 namespace Litex.Bridge
@@ -69,6 +76,44 @@ def numUp (c : UpCfg) : NumMachine UpState where
     | _, _ => none
   key s := toString (repr s)
 
+def AxiM.ofNums : List Nat → Option AxiM
+  | [awv, awa, awb, awl, aws, awi, wv, wd, ws, wl, br, arv, ara, arb, arl, ars, ari, rr] =>
+    some { awvalid := n2b awv, aw := { addr := awa, len := awl, size := aws, burst := awb, id := awi }
+           wvalid := n2b wv, wdata := wd, wstrb := ws, wlast := n2b wl, bready := n2b br
+           arvalid := n2b arv, ar := { addr := ara, len := arl, size := ars, burst := arb, id := ari }
+           rready := n2b rr }
+  | _ => none
+
+def AxiM.toNums (m : AxiM) : List Nat :=
+  [b2n m.awvalid, m.aw.addr, m.aw.burst, m.aw.len, m.aw.size, m.aw.id, b2n m.wvalid, m.wdata, m.wstrb, b2n m.wlast,
+   b2n m.bready, b2n m.arvalid, m.ar.addr, m.ar.burst, m.ar.len, m.ar.size, m.ar.id, b2n m.rready]
+
+def AxiS.ofNums : List Nat → Option AxiS
+  | [awr, wr, bv, bre, bi, arr, rv, rre, rd, ri, rl] =>
+    some { awready := n2b awr, wready := n2b wr, bvalid := n2b bv, bresp := bre, bid := bi, arready := n2b arr,
+           rvalid := n2b rv, rresp := rre, rdata := rd, rid := ri, rlast := n2b rl }
+  | _ => none
+
+def AxiS.toNums (s : AxiS) : List Nat :=
+  [b2n s.awready, b2n s.wready, b2n s.bvalid, s.bresp, s.bid, b2n s.arready, b2n s.rvalid, s.rresp, s.rdata, s.rid,
+   b2n s.rlast]
+
+def numAxi2Axl (aw : Nat) : NumMachine X2LState where
+  init := Axi2Axl.init
+  step s ins :=
+    match AxiM.ofNums (ins.take 18), AxlS.ofNums (ins.drop 18) with
+    | some m, some r => some (Axi2Axl.next aw s m r, (Axi2Axl.toMaster aw s m r).toNums ++ (Axi2Axl.toSlave aw s m).toNums)
+    | _, _ => none
+  key s := toString (repr s)
+
+def numAxl2Axi (c : L2XCfg) : NumMachine Unit where
+  init := ()
+  step _ ins :=
+    match AxlM.ofNums (ins.take 9), AxiS.ofNums (ins.drop 9) with
+    | some m, some r => some ((), (Axl2Axi.toMaster r).toNums ++ (Axl2Axi.toSlave c m).toNums ++ [c.prot, 3, c.prot, 3])
+    | _, _ => none
+  key _ := "()"
+
 def openMachine (args : List String) (hin hout : IO.FS.Stream) : Option (IO Bool) :=
   match args with
   | name :: rest =>
@@ -82,6 +127,9 @@ def openMachine (args : List String) (hin hout : IO.FS.Stream) : Option (IO Bool
         some (serve (numAxlSram { shift := shift, adrBits := ab, nb := nb } (n2b ro) mem) hin hout)
       | "axldown", [ratio, nbTo, abits] => some (serve (numDown { ratio := ratio, nbTo := nbTo, abits := abits }) hin hout)
       | "axlup", [ratio, nbFrom] => some (serve (numUp { ratio := ratio, nbFrom := nbFrom }) hin hout)
+      | "axi2axl", [aw] => some (serve (numAxi2Axl aw) hin hout)
+      | "axl2axi", [size, burst, prot, wid, rid] =>
+        some (serve (numAxl2Axi { size := size, burst := burst, prot := prot, wid := wid, rid := rid }) hin hout)
       | "wb2axl", [ab, shift, base] => some (serve (numWb2Axl { adrBits := ab, shift := shift, base := base }) hin hout)
       | _, _ => none
   | _ => none
